@@ -10,7 +10,8 @@
 (***************************************************************************)
 EXTENDS Lex, BigNat, Digits, Texts, TLC, Json
 
-CONSTANTS Pos      \* "expires" | "clen" | "cseq" | "cexpires" | "port" | "q"
+CONSTANTS Pos,     \* "expires" | "clen" | "cseq" | "cexpires" | "port" | "q"
+          CutMax   \* cut positions 1..CutMax inside the number are tried (1: only after the first digit)
 VARIABLES d, cut   \* index into DigitStrings (or QCases), cut position inside the number (0 = one-shot)
 
 W == 12
@@ -70,18 +71,18 @@ RecQ(c) == LET ip == QInts[c[1]]  dp == IF c[2] = 1 THEN QDecs[c[3]] ELSE <<>>
                valid == Len(txt) > 0 /\ LessEq(iv, Lim(<<1>>)) /\ Len(dp) <= 3 /\ (iv[1] = 1 => Pad3(dp) = 0)
                w == PreQ \o txt \o TAIL
            IN [k |-> "nameaddr", cfg |-> Cfg("nameaddr", 8), wire |-> w,
-               cuts |-> IF cut = 0 \/ Len(txt) < 2 THEN <<Len(w)>> ELSE <<Len(PreQ) + 1, Len(w)>>,
+               cuts |-> IF cut = 0 \/ Len(txt) <= cut THEN <<Len(w)>> ELSE <<Len(PreQ) + cut, Len(w)>>,
                offs |-> Len(w) - 1, err |-> "ok", errs |-> <<>>,
                obs |-> IF Len(txt) = 0 THEN [Q |-> 0]
                        ELSE IF valid THEN [Q |-> iv[1] * 1000 + Pad3(dp), ParamErr |-> "ok"] ELSE [Q |-> 0, nParamErr |-> "ok"],
                src |-> "decl", prop |-> "C10"]
 
-Init == /\ cut \in {0, 1}
+Init == /\ cut \in 0..CutMax
         /\ IF Pos = "q" THEN d \in QCases ELSE d \in 1..Len(DigitStrings)
 Next == FALSE /\ UNCHANGED <<d, cut>>
 Spec == Init /\ [][Next]_<<d, cut>>
 
-InCut(ds) == cut = 0 \/ Len(ds) >= 2
+InCut(ds) == cut = 0 \/ Len(ds) > cut
 Emit == CASE Pos = "expires"  -> InCut(DS) => PrintT(ToJson(RecExpires))
           [] Pos = "clen"     -> InCut(DS) => PrintT(ToJson(RecCLen))
           [] Pos = "cseq"     -> InCut(DS) => PrintT(ToJson(RecCSeq))
